@@ -30,6 +30,8 @@ type Interp struct {
 	handler  types.Type // oj.TokenHandler interface, if any
 	// candidates for what lies below a popped stack top (supplied by the product)
 	below    func(field string) []absStack
+	// precisePrev: frames remember what they were pushed over (superset comparison of the SEN parser)
+	precisePrev bool
 	undecided []string
 	maxDepth int
 	hook     *workCollector
@@ -326,8 +328,12 @@ func (in *Interp) execAssign(s *ast.AssignStmt, st *State) []Exit {
 		var out []Exit
 		for _, r := range in.eval(s.Rhs[0], st) {
 			cur := []*State{r.st}
+			keyOK, keyKnown := in.keyAssertion(s.Rhs[0], r.st)
 			for i, l := range s.Lhs {
 				v := vTop
+				if i == 1 && keyKnown {
+					v = vConstBool(keyOK)
+				}
 				if i == 0 && r.v.K != kTop {
 					// first result of a comma-ok form keeps nothing useful
 					v = vTop
@@ -370,6 +376,7 @@ func (in *Interp) execAssign(s *ast.AssignStmt, st *State) []Exit {
 					continue
 				}
 				in.noteKeyPush(l, s.Rhs[i], s2)
+				in.buildAssign(l, s.Rhs[i], s2)
 				in.scratchAssign(l, s.Rhs[i], s2)
 				next = append(next, in.assignTo(l, c.vs[i], s2, s.Pos())...)
 			}
@@ -435,7 +442,11 @@ func (in *Interp) stackAssign(lhs, rhs ast.Expr, st *State) ([]*State, bool) {
 					nn := v.NonNeg || v.K == kLen
 					v = Val{K: kTop, NonNeg: nn}
 				}
-				e.st.stacks[f] = absStack{Top: v}
+				fr := absStack{Top: v, Saved: e.st.bs}
+				if in.precisePrev {
+					fr.Prev = e.st.stacks[f].prevKey()
+				}
+				e.st.stacks[f] = fr
 				e.st.pushed = append(e.st.pushed, pushRec{Field: f, V: v})
 				e.st.shiftLen(f, -1)
 				out = append(out, e.st)
@@ -464,9 +475,13 @@ func (in *Interp) stackAssign(lhs, rhs ast.Expr, st *State) ([]*State, bool) {
 						continue
 					}
 					e.st.popped = append(e.st.popped, f)
+					e.st.pendingRestore = cur.Saved
 					e.st.shiftLen(f, +1)
 					cands := in.below(f)
 					for _, c := range cands {
+						if cur.Prev != "" && c.prevKey() != cur.Prev {
+							continue // not what this frame was pushed over
+						}
 						n := e.st.clone()
 						n.stacks[f] = c
 						out = append(out, n)
@@ -1517,4 +1532,112 @@ func (in *Interp) scratchConsume(arg ast.Expr, st *State) {
 		st.garbage = map[string]bool{}
 	}
 	st.garbage[f] = true
+}
+
+// buildAssign follows the kind of the top of the build stack (the []any /
+// []Node slice that values, keys and container placeholders are pushed on).
+func (in *Interp) buildAssign(lhs, rhs ast.Expr, st *State) {
+	if !in.precisePrev {
+		return
+	}
+	f := in.fieldPath(lhs, st)
+	if f == "" || f != in.buildFld || in.buildFld == "" {
+		return
+	}
+	switch r := rhs.(type) {
+	case *ast.CallExpr:
+		id, ok := r.Fun.(*ast.Ident)
+		if !ok {
+			st.bs = 0
+			return
+		}
+		switch id.Name {
+		case "append":
+			if len(r.Args) == 2 && !r.Ellipsis.IsValid() && in.fieldPath(r.Args[0], st) == f {
+				t := in.info.TypeOf(r.Args[1])
+				st.bs = 'O'
+				if t != nil {
+					if n, ok := t.(*types.Named); ok && n.Obj().Name() == "Key" && n.Obj().Pkg() != nil && strings.HasSuffix(n.Obj().Pkg().Path(), "/gen") {
+						st.bs = 'K'
+					} else if _, isMap := t.Underlying().(*types.Map); isMap {
+						st.bs = 'M'
+					}
+				}
+				return
+			}
+			st.bs = 0
+		case "make":
+			st.bs = 'O'
+		default:
+			st.bs = 0
+		}
+	case *ast.SliceExpr:
+		if in.fieldPath(r.X, st) != f {
+			st.bs = 0
+			return
+		}
+		if r.High == nil {
+			return
+		}
+		if isZeroLit(r.High) {
+			st.bs = 'O'
+			return
+		}
+		// B[:len(B)-1]: pop one element
+		if be, ok := ast.Unparen(r.High).(*ast.BinaryExpr); ok && be.Op == token.SUB && isOne(be.Y) {
+			if c, ok := ast.Unparen(be.X).(*ast.CallExpr); ok && len(c.Args) == 1 && in.fieldPath(c.Args[0], st) == f {
+				if cid, ok := c.Fun.(*ast.Ident); ok && cid.Name == "len" {
+					switch st.bs {
+					case 'K':
+						st.bs = 'M'
+					case 'M':
+						st.bs = st.pendingRestore
+					case 'O':
+						st.bs = 'O'
+					}
+					return
+				}
+				if cid, ok := c.Fun.(*ast.Ident); ok && cid.Name == "cap" {
+					return
+				}
+			}
+		}
+		if c, ok := ast.Unparen(r.High).(*ast.CallExpr); ok {
+			if cid, ok := c.Fun.(*ast.Ident); ok && cid.Name == "cap" {
+				return // B[:cap(B)]: clean-up at the end of an entry
+			}
+		}
+		// truncation to the start of the frame that was just closed
+		st.bs = st.pendingRestore
+	default:
+		st.bs = 0
+	}
+}
+
+func isOne(e ast.Expr) bool {
+	bl, ok := e.(*ast.BasicLit)
+	return ok && bl.Value == "1"
+}
+
+// keyAssertion recognises `B[len(B)-1].(gen.Key)` and answers it from the
+// tracked build-stack kind.
+func (in *Interp) keyAssertion(e ast.Expr, st *State) (ok bool, known bool) {
+	ta, isTA := ast.Unparen(e).(*ast.TypeAssertExpr)
+	if !isTA || ta.Type == nil || in.buildFld == "" || st.bs == 0 {
+		return false, false
+	}
+	t := in.info.TypeOf(ta.Type)
+	n, isNamed := t.(*types.Named)
+	if !isNamed || n.Obj().Name() != "Key" || n.Obj().Pkg() == nil || !strings.HasSuffix(n.Obj().Pkg().Path(), "/gen") {
+		return false, false
+	}
+	ix, isIx := ast.Unparen(ta.X).(*ast.IndexExpr)
+	if !isIx || in.fieldPath(ix.X, st) != in.buildFld {
+		return false, false
+	}
+	be, isBe := ast.Unparen(ix.Index).(*ast.BinaryExpr)
+	if !isBe || be.Op != token.SUB || !isOne(be.Y) {
+		return false, false
+	}
+	return st.bs == 'K', true
 }
